@@ -127,6 +127,9 @@ def exc_bucket(exc: BaseException) -> str:
     return f"{type(exc).__name__}@{baize_frame(exc) or 'outside-baize'}"
 
 
+from asyncio import CancelledError as _CancelledError  # noqa: E402
+
+
 def guarded(oracle: Callable[[Any], Result]) -> Callable[[Any], Result]:
     """Wrap an oracle: an exception that passes through a baize frame becomes a failure of
     the case (the code under test crashed where the oracle expected a value); anything else
@@ -144,7 +147,10 @@ def guarded(oracle: Callable[[Any], Result]) -> Callable[[Any], Result]:
             r = Result()
             r.fail(f"crash:{exc_bucket(exc)}", "RecursionError")
             return r
-        except Exception as exc:  # noqa: BLE001
+        except (Exception, _CancelledError) as exc:  # noqa: BLE001
+            # (asyncio.CancelledError is a BaseException: a call of the code under test that cancels itself - nobody injected
+            # it - must end up here and not fall through every `except Exception` up to the runner, where it was an exit 2
+            # without a message: found by seed C06-20)
             frame = baize_frame(exc)
             obj = getattr(exc, "obj", None) if isinstance(exc, AttributeError) else None
             if frame is None and obj is not None and (type(obj).__module__ or "").startswith("baize"):
